@@ -14,8 +14,9 @@ from . import _sim
 
 ID = "C19"
 RULE = (
-    "one case = (database, build, data situation in {no locus reads, depth below minimum, "
-    "pseudogene only, no neutral reads, adequate}, profile route in {BAM profile, profile file, "
+    "one case = (database, build, data situation in {no locus reads, depth below minimum, reads only in the "
+    "flank just outside the locus (inside the padding of the indexed query), reads only on another contig whose "
+    "name ends with the gene's (unindexed text SAM), pseudogene only, no neutral reads, adequate}, profile route in {BAM profile, profile file, "
     "user-supplied structure}, output format in {none, .aldy, .vcf, .simple}); non-trivial = every "
     "case other than 'adequate'; distinct by the tuple"
 )
@@ -31,7 +32,7 @@ MIN = {
 }
 CASE_TIMEOUT = {"quick": 900, "thorough": 3000}
 SITUATIONS = ["no_locus_reads", "low_depth", "below_configured_minimum", "gap_only", "no_reads_min0",
-              "pseudogene_only", "no_neutral", "adequate"]
+              "flank_only", "twin_contig_sam", "pseudogene_only", "no_neutral", "adequate"]
 ROUTES = ["bam_profile", "profile_file", "user_structure"]
 OUTPUTS = [None, "aldy", "vcf", "simple"]
 
@@ -99,6 +100,20 @@ def run(case):
             if r_:
                 r_["hap"] = 9
                 gap_reads.append(r_)
+    elif sit == "flank_only":
+        # reads right next to the locus: inside the 500 bp the indexed query is padded with, outside the locus
+        w = g.get_wide_region()
+        lo, hi = w.start - 470, w.start - 3
+        if lo < 10 or (neutral and not (neutral[1] < lo or neutral[0] > hi)):
+            res.fp, res.nontrivial = util.fingerprint(case), False
+            res.count("skipped_no_room")
+            return res
+        haps = []
+        for k, (s_, e_, _, _) in enumerate(reads.tile_segment(lo, hi, rl, 3, True, True)):
+            r_ = reads.make_read(db.ref, ({}, [], {}), s_, e_, f"flank{k}")
+            if r_ and r_["start"] + rl < w.start:
+                r_["hap"] = 9
+                gap_reads.append(r_)
     elif sit == "pseudogene_only":
         if not (dele and g.pseudogenes):
             res.count("skipped_no_deletion_allele")
@@ -126,7 +141,18 @@ def run(case):
         loc = [r for r in rds if r.get("hap") != -1]
         rds = [r for r in rds if r.get("hap") == -1] + loc[:3]
     scratch = util.scratch_dir()
-    bam = reads.write_bam(os.path.join(scratch, "s.bam"), g.chr, db.contig_len, rds)
+    if sit == "twin_contig_sam":
+        # whole-genome style text SAM without index: all locus reads sit at the gene's coordinates on another
+        # contig whose name merely ends with the gene's contig name (7 / 17, 1 / 11 ...)
+        twin = "1" + g.chr
+        keep_neutral = rng.random() < 0.5
+        for r in rds:
+            if not (keep_neutral and r.get("hap") == -1):
+                r["tid"] = 1
+        bam = reads.write_bam(os.path.join(scratch, "s.sam"), g.chr, db.contig_len, rds,
+                              extra_contigs=[(twin, db.contig_len)], fmt="sam")
+    else:
+        bam = reads.write_bam(os.path.join(scratch, "s.bam"), g.chr, db.contig_len, rds)
     profile = db.ref_bam(rl, depth)
     if route == "profile_file":
         import yaml
@@ -173,7 +199,8 @@ def run(case):
         res.count("outside_statement")
         res.fp, res.nontrivial = util.fingerprint(case), False
         return res
-    expect_no_call = sit in ("no_locus_reads", "low_depth", "below_configured_minimum", "gap_only", "no_reads_min0") or \
+    expect_no_call = sit in ("no_locus_reads", "low_depth", "below_configured_minimum", "gap_only", "no_reads_min0",
+                             "flank_only", "twin_contig_sam") or \
         (sit == "no_neutral" and route != "user_structure")
     if sit == "pseudogene_only" and route == "user_structure":
         res.count("outside_statement")
